@@ -222,6 +222,17 @@ pub enum Expect {
     Unmodelled,
 }
 
+/// The InSim version an IS_VER frame reports, read from the wire by the InSim specification
+/// (byte 18 of the 20-byte packet: Size, Type, ReqI, Zero, Version[8], Product[6], InSimVer,
+/// Spare) — independently of the library's decoder, whose verdict the gate is judged against.
+pub fn wire_version(frame: &[u8]) -> Option<u8> {
+    if frame.len() >= 20 && frame[1] == 2 {
+        Some(frame[18])
+    } else {
+        None
+    }
+}
+
 pub fn expect_for(mode: SizeMode, verify_version: bool, frame: &[u8]) -> Expect {
     match ref_decode(mode, frame) {
         RefRes::Pkt {
@@ -229,6 +240,11 @@ pub fn expect_for(mode: SizeMode, verify_version: bool, frame: &[u8]) -> Expect 
             keepalive,
             ver,
         } => {
+            // what the packet says on the wire wins over what the decoder made of it
+            let ver = match (ver, wire_version(frame)) {
+                (Some(_), Some(w)) => Some(w),
+                (v, _) => v,
+            };
             if verify_version {
                 if let Some(v) = ver {
                     if v != 9 {
